@@ -169,7 +169,7 @@ def run(ctx: Ctx) -> None:
                 missing_before = [k for k in keys_m if k in db]
                 db.import_json(serializer, data)
                 after = {k: describe(db[k]) for k in keys_m if k in db}
-                ok_completed = db.completed(M)
+                ok_completed = db.completed(M) or not keys_m       # (a module without any symbol has no row that could mark it complete)
                 db.import_json(serializer, data)
                 again = {k: describe(db[k]) for k in keys_m if k in db}
             except Exception as e:
